@@ -62,6 +62,8 @@ func alternatives(p Position, withPanic, thorough bool) []string {
 	switch p.Kind {
 	case "element":
 		return []string{"null"}
+	case "unmarshal", "interceptor":
+		out = []string{"error"}
 	case "directive":
 		out = []string{"error", "null"}
 	case "resolver":
@@ -88,14 +90,15 @@ func alternatives(p Position, withPanic, thorough bool) []string {
 // Plans enumerates all plans with at most d deviations from the all-value plan for one
 // operation: deviations are added one at a time to positions that exist in the reference
 // run of the plan so far (a deviation can create or remove later positions).
-func (s *Shared) Plans(doc *ast.QueryDocument, op Op, d int, withPanic, thorough bool) []Plan {
+func (s *Shared) Plans(doc *ast.QueryDocument, op Op, d int, withPanic, thorough bool, intercept ...bool) []Plan {
+	icpt := len(intercept) > 0 && intercept[0]
 	seen := map[string]bool{"": true}
 	out := []Plan{{}}
 	frontier := []Plan{{}}
 	for depth := 0; depth < d; depth++ {
 		var next []Plan
 		for _, base := range frontier {
-			ref, _ := s.Reference(doc, Case{Op: op, Plan: base}, Quirks{})
+			ref, _ := s.Reference(doc, Case{Op: op, Plan: base, Intercept: icpt}, Quirks{})
 			for _, pos := range ref.Positions {
 				if _, dev := base[pos.Path]; dev {
 					continue
@@ -153,6 +156,8 @@ type MassSpec struct {
 	Deviations int
 	WithPanic  bool
 	Thorough   bool
+	// Intercept: activate the fault-capable field interceptor (positions "~path")
+	Intercept bool
 	// ExtraOps are hand-written operations (fault corpus etc.) prepended to the enumeration.
 	ExtraOps []Op
 }
@@ -195,8 +200,8 @@ func (s *Shared) RunMass(spec MassSpec, shard, nshard int, deadline time.Time) M
 			return
 		}
 		res.Ops++
-		for _, plan := range s.Plans(doc, op, dev, spec.WithPanic, spec.Thorough) {
-			c := Case{Op: op, Plan: plan}
+		for _, plan := range s.Plans(doc, op, dev, spec.WithPanic, spec.Thorough, spec.Intercept) {
+			c := Case{Op: op, Plan: plan, Intercept: spec.Intercept}
 			in, x := s.RunCase(c, doc)
 			res.Cases++
 			if len(in.Env.Calls) > 0 || len(plan) > 0 {
